@@ -409,7 +409,7 @@ ExtTargets(pkgs, imp) ==
 \* Excluded_F_C15_6 (known finding F-C15-6, pinned in family "v2read"): the body of a
 \* function, method or init function reads a variable declared by `var a, b = f()`;
 \* the interpreter does not read the initialised value there (zero, junk or panic).
-Excluded_F_C15_6(ki, kt) == ki \in {"fn", "mt", "in"} /\ kt = "v2"
+Excluded_F_C15_6(ki, kt) == FALSE      \* repaired (de79d41): bodies may read the variables of var a, b = f()
 LocalBody(rv, p, ks, i, jw, jk, jp, kbag) ==
     LET wild  == ks[i] = "in" \/ Rn(rv, p, i, jw) % 30 = 0
         cand0 == IF wild THEN Targets(ks)
